@@ -50,12 +50,28 @@ def styles_phase(ctx):
 
 
 def _library_race(text):
-    """Splits the race detector's output into reports; returns those with a frame inside the library."""
+    """Splits the race detector's output into reports; returns those in which at least one of the two conflicting
+    accesses was made by the library: in that access's stack, the first frame that is either the library's or the
+    driver's is the library's (so the standard library working on the library's behalf counts, and two accesses
+    made by the driver's own code -- a bug of the driver -- do not)."""
     reports = text.split("WARNING: DATA RACE")[1:]
     lib = []
     for r in reports:
         body = r.split("==================")[0]
-        if "/repo/" in body or "go.pennock.tech/tabular" in body:
+        stacks = re.split(r"\n(?=(?:Read|Write|Previous read|Previous write|Atomic read|Atomic write|Previous atomic read|Previous atomic write) (?:at|of) )", "\n" + body)
+        by_lib = False
+        for st in stacks:
+            if not re.match(r"\s*(Read|Write|Previous|Atomic)", st):
+                continue
+            st = st.split("\nGoroutine ")[0]
+            for ln in st.split("\n")[1:]:
+                f = ln.strip()
+                if f.startswith("go.pennock.tech/tabular"):
+                    by_lib = True
+                    break
+                if f.startswith("main."):
+                    break
+        if by_lib:
             lib.append(body)
     return reports, lib
 
